@@ -1,23 +1,224 @@
 package dns
 
-// Correspondence driver for C15 (TXT RDATA, names, DNS messages).
+// Correspondence driver for C15 (TXT RDATA, names, DNS messages).  Reads cases,
+// records what the implementation does; contains no assertions about conjure.
 
 import (
+	"bytes"
 	"encoding/hex"
 	"encoding/json"
+	"errors"
+	"fmt"
+	"io"
 	"os"
 	"testing"
 )
 
+type vq struct {
+	Name  []string `json:"name"`
+	Type  uint16   `json:"type"`
+	Class uint16   `json:"class"`
+}
+type vrr struct {
+	Name  []string `json:"name"`
+	Type  uint16   `json:"type"`
+	Class uint16   `json:"class"`
+	TTL   uint32   `json:"ttl"`
+	Data  string   `json:"data"`
+	// DataGen > 0: Data is produced by the shared LCG (seed DataSeed, DataGen bytes)
+	DataSeed uint32 `json:"dseed"`
+	DataGen  int    `json:"dgen"`
+}
+type vmsg struct {
+	ID    uint16 `json:"id"`
+	Flags uint16 `json:"flags"`
+	Q     []vq   `json:"q"`
+	An    []vrr  `json:"an"`
+	Ns    []vrr  `json:"ns"`
+	Ar    []vrr  `json:"ar"`
+}
+
 type vcase struct {
-	Op   string `json:"op"`
-	Data string `json:"data"`
+	Op     string   `json:"op"`
+	Data   string   `json:"data"`
+	Labels []string `json:"labels"`
+	Suffix []string `json:"suffix"`
+	Pos    int      `json:"pos"`
+	Msg    *vmsg    `json:"msg"`
 }
 type vres struct {
-	Ok   bool   `json:"ok"`
-	Out  string `json:"out"`
-	Ok2  bool   `json:"ok2"`
-	Out2 string `json:"out2"`
+	Ok     bool     `json:"ok"`
+	Out    string   `json:"out"`
+	Ok2    bool     `json:"ok2"`
+	Out2   string   `json:"out2"`
+	Err    string   `json:"err"`
+	Err2   string   `json:"err2"`
+	Labels []string `json:"labels"`
+	Pos    int      `json:"pos"`
+	Msg    *vmsg    `json:"msg"`
+	Panic  string   `json:"panic"`
+}
+
+func errClass(err error) string {
+	switch {
+	case err == nil:
+		return ""
+	case errors.Is(err, ErrZeroLengthLabel):
+		return "zero"
+	case errors.Is(err, ErrLabelTooLong):
+		return "labellong"
+	case errors.Is(err, ErrNameTooLong):
+		return "namelong"
+	case errors.Is(err, ErrReservedLabelType):
+		return "reserved"
+	case errors.Is(err, ErrTooManyPointers):
+		return "ptrs"
+	case errors.Is(err, ErrTrailingBytes):
+		return "trailing"
+	case errors.Is(err, ErrIntegerOverflow):
+		return "overflow"
+	case errors.Is(err, io.EOF), errors.Is(err, io.ErrUnexpectedEOF):
+		return "eof"
+	}
+	return "other:" + err.Error()
+}
+
+func unhexAll(l []string) [][]byte {
+	out := make([][]byte, len(l))
+	for i, s := range l {
+		out[i], _ = hex.DecodeString(s)
+	}
+	return out
+}
+func hexAll(n Name) []string {
+	out := make([]string, len(n))
+	for i, l := range n {
+		out[i] = hex.EncodeToString(l)
+	}
+	return out
+}
+
+func lcg(seed uint32, n int) []byte {
+	x := uint64(seed)
+	out := make([]byte, n)
+	for i := range out {
+		x = (x*1103515245 + 12345) % 2147483648
+		out[i] = byte((x / 65536) % 256)
+	}
+	return out
+}
+
+func toRRs(l []vrr) []RR {
+	var out []RR
+	for _, r := range l {
+		var d []byte
+		if r.DataGen > 0 {
+			d = lcg(r.DataSeed, r.DataGen)
+		} else {
+			d, _ = hex.DecodeString(r.Data)
+		}
+		out = append(out, RR{Name: Name(unhexAll(r.Name)), Type: r.Type, Class: r.Class, TTL: r.TTL, Data: d})
+	}
+	return out
+}
+func fromRRs(l []RR) []vrr {
+	out := []vrr{}
+	for _, r := range l {
+		out = append(out, vrr{Name: hexAll(r.Name), Type: r.Type, Class: r.Class, TTL: r.TTL, Data: hex.EncodeToString(r.Data)})
+	}
+	return out
+}
+func toMsg(m *vmsg) *Message {
+	out := &Message{ID: m.ID, Flags: m.Flags}
+	for _, q := range m.Q {
+		out.Question = append(out.Question, Question{Name: Name(unhexAll(q.Name)), Type: q.Type, Class: q.Class})
+	}
+	out.Answer, out.Authority, out.Additional = toRRs(m.An), toRRs(m.Ns), toRRs(m.Ar)
+	return out
+}
+func fromMsg(m *Message) *vmsg {
+	out := &vmsg{ID: m.ID, Flags: m.Flags, Q: []vq{}}
+	for _, q := range m.Question {
+		out.Q = append(out.Q, vq{Name: hexAll(q.Name), Type: q.Type, Class: q.Class})
+	}
+	out.An, out.Ns, out.Ar = fromRRs(m.Answer), fromRRs(m.Authority), fromRRs(m.Additional)
+	return out
+}
+
+func runCase(c vcase) (r vres) {
+	defer func() {
+		if p := recover(); p != nil {
+			r.Panic = fmt.Sprint(p)
+		}
+	}()
+	d, _ := hex.DecodeString(c.Data)
+	switch c.Op {
+	case "rt_txt":
+		e := EncodeRDataTXT(d)
+		r.Ok = true
+		r.Out = hex.EncodeToString(e)
+		p, err2 := DecodeRDataTXT(e)
+		r.Ok2 = err2 == nil
+		r.Out2 = hex.EncodeToString(p)
+	case "dec_txt":
+		p, err := DecodeRDataTXT(d)
+		r.Ok = err == nil
+		r.Out = hex.EncodeToString(p)
+	case "name_rt": // NewName; fresh builder WriteName; readName
+		n, err := NewName(unhexAll(c.Labels))
+		r.Ok, r.Err = err == nil, errClass(err)
+		if err != nil {
+			return
+		}
+		b := newMessageBuilder()
+		if err := b.WriteName(n); err != nil {
+			r.Err = "write:" + err.Error()
+			return
+		}
+		r.Out = hex.EncodeToString(b.Bytes())
+		rd := bytes.NewReader(b.Bytes())
+		n2, err2 := readName(rd)
+		r.Ok2, r.Err2 = err2 == nil, errClass(err2)
+		if err2 == nil {
+			r.Labels = hexAll(n2)
+			p, _ := rd.Seek(0, io.SeekCurrent)
+			r.Pos = int(p)
+		}
+	case "read_name": // readName at an offset of arbitrary bytes
+		rd := bytes.NewReader(d)
+		_, _ = rd.Seek(int64(c.Pos), io.SeekStart)
+		n, err := readName(rd)
+		r.Ok, r.Err = err == nil, errClass(err)
+		if err == nil {
+			r.Labels = hexAll(n)
+			p, _ := rd.Seek(0, io.SeekCurrent)
+			r.Pos = int(p)
+		}
+	case "trim":
+		pre, ok := Name(unhexAll(c.Labels)).TrimSuffix(Name(unhexAll(c.Suffix)))
+		r.Ok = ok
+		r.Labels = hexAll(pre)
+	case "msg_rt": // WireFormat, then MessageFromWireFormat of the result
+		m := toMsg(c.Msg)
+		e, err := m.WireFormat()
+		r.Ok, r.Err = err == nil, errClass(err)
+		if err != nil {
+			return
+		}
+		r.Out = hex.EncodeToString(e)
+		m2, err2 := MessageFromWireFormat(e)
+		r.Ok2, r.Err2 = err2 == nil, errClass(err2)
+		if err2 == nil {
+			r.Msg = fromMsg(&m2)
+		}
+	case "msg_dec":
+		m, err := MessageFromWireFormat(d)
+		r.Ok, r.Err = err == nil, errClass(err)
+		if err == nil {
+			r.Msg = fromMsg(&m)
+		}
+	}
+	return
 }
 
 func TestVerifC15Dns(t *testing.T) {
@@ -31,22 +232,7 @@ func TestVerifC15Dns(t *testing.T) {
 	}
 	res := make([]vres, len(cases))
 	for i, c := range cases {
-		d, _ := hex.DecodeString(c.Data)
-		var r vres
-		switch c.Op {
-		case "rt_txt":
-			e := EncodeRDataTXT(d)
-			r.Ok = true
-			r.Out = hex.EncodeToString(e)
-			p, err2 := DecodeRDataTXT(e)
-			r.Ok2 = err2 == nil
-			r.Out2 = hex.EncodeToString(p)
-		case "dec_txt":
-			p, err := DecodeRDataTXT(d)
-			r.Ok = err == nil
-			r.Out = hex.EncodeToString(p)
-		}
-		res[i] = r
+		res[i] = runCase(c)
 	}
 	out, _ := json.Marshal(res)
 	if err := os.WriteFile(os.Getenv("VERIF_OUT"), out, 0o644); err != nil {
